@@ -168,7 +168,8 @@ def main(argv=None):
     ctx = multiprocessing.get_context('fork')
     nw = min(a.jobs, len(jobs))
     opts['solve_procs'] = max(2, min(a.jobs, (a.jobs + len(jobs) - 1) // max(1, len(jobs))))
-    with concurrent.futures.ProcessPoolExecutor(nw, mp_context=ctx) as pool:
+    from .state import die_with_parent
+    with concurrent.futures.ProcessPoolExecutor(nw, mp_context=ctx, initializer=die_with_parent) as pool:
         results = list(pool.map(_run_one, jobs))
     findings = load_findings()
     violations, known_hit, undecided, errors = [], [], [], []
